@@ -20,6 +20,17 @@ func (g *FuncGen) execCall(x *ssa.Call, st *State) error {
 	}
 	c, callee := g.eng.contractForCall(com)
 	sig := com.Signature()
+	// devirtualisation: an interface parameter verified for one dynamic type
+	devirt := false
+	if com.IsInvoke() && g.dynTypes != nil {
+		if dt, ok := g.dynTypes[g.val(com.Value)]; ok {
+			if m := g.eng.prog.LookupMethod(dt, com.Method.Pkg(), com.Method.Name()); m != nil {
+				callee = m
+				c = g.eng.cs.Funcs[m.String()]
+				devirt = true
+			}
+		}
+	}
 	// ghost assertions of the enclosing contract, in the state just before this call
 	if g.depth == 0 && g.c != nil && callee != nil {
 		for _, ac := range g.c.AtCalls {
@@ -27,6 +38,32 @@ func (g *FuncGen) execCall(x *ssa.Call, st *State) error {
 				env := &Env{g: g, vars: map[string]Val{}, heap: st.heap, old: g.entryHeap, pkg: g.pkg, entryVars: g.paramTerms}
 				for k, v := range g.paramTerms {
 					env.vars[k] = v
+				}
+				// named locals whose definition dominates the call
+				blk := x.Block()
+				for name, defs := range g.debugRef {
+					if _, isParam := env.vars[name]; isParam {
+						continue
+					}
+					var best *debugDef
+					for i := range defs {
+						d := &defs[i]
+						if d.addr {
+							continue
+						}
+						if d.block.Dominates(blk) && (d.block != blk || d.pos < x.Pos()) {
+							if best == nil || best.block.Dominates(d.block) {
+								best = d
+							}
+						}
+					}
+					if best != nil {
+						if _, isAddr := g.addrs[best.v]; !isAddr {
+							if _, known := g.vals[best.v]; known {
+								env.vars[name] = Val{g.val(best.v), best.v.Type()}
+							}
+						}
+					}
 				}
 				t, err := g.evalBool(ac.Clause.Expr, env)
 				if err != nil {
@@ -39,7 +76,12 @@ func (g *FuncGen) execCall(x *ssa.Call, st *State) error {
 	// argument terms (receiver first for invoke)
 	var args []string
 	var argTypes []types.Type
-	if com.IsInvoke() {
+	if com.IsInvoke() && devirt {
+		recv := g.val(com.Value)
+		dt := g.dynTypes[recv]
+		args = append(args, g.w.Unbox(dt, fmt.Sprintf("(i_val %s)", recv)))
+		argTypes = append(argTypes, dt)
+	} else if com.IsInvoke() {
 		recv := g.val(com.Value)
 		g.check(st, "safe.nilcall", fmt.Sprintf("(not (= (i_typ %s) 0))", recv), "method call on nil interface: "+com.Method.Name(), pos)
 		args = append(args, recv)
